@@ -87,6 +87,7 @@ impl Interpreter {
     fn executer_assignment(config: &SmartCalcConfig, session: &Session, variable: Rc<VariableInfo>, expression: Rc<SmartCalcAstType>) -> Result<Rc<SmartCalcAstType>, String> {
         let computed  = Interpreter::execute_ast(config, session, expression)?;
         *variable.data.borrow_mut() = computed.clone();
+        session.add_variable(variable);
         Ok(computed)
     }
     
